@@ -4,8 +4,8 @@ CONSTANTS
   WordMax <- Word64
   KiloBase <- Kilo
   SetNameIdx = {1, 4, 5, 9}
-  SetValueIdx = {1, 2, 10, 11, 13, 14, 16, 18}
-  BulkIdx = {2, 3, 5, 6, 8}
+  SetValueIdx = {1, 2, 10, 11, 14, 16, 18}
+  BulkIdx = {2, 3, 5, 8}
 
 INVARIANTS
   AllValid
